@@ -144,6 +144,10 @@ func rootOf(v *V) (V, bool) {
 	if v.T == "struct" && hasGapKid(v) {
 		return *v, false
 	}
+	if v.NRoot { // a field in front, so that the nested buffer does not sit at position 0 of its parent
+		pad := V{T: "scalar", Names: []string{}, Kids: []V{}, Kind: "uint", A: jnum("5"), Sym: jNone}
+		return V{T: "struct", Names: []string{"p", "v"}, Kids: []V{pad, *v}, A: jNone, Sym: jNone}, true
+	}
 	return V{T: "struct", Names: []string{"v"}, Kids: []V{*v}, A: jNone, Sym: jNone}, true
 }
 
@@ -170,11 +174,12 @@ func selfCheck(root *V, bs []byte, nbits int64, sel bool) string {
 	}
 	want := root
 	if sel { // only the value under test (an all-synthetic value leaves an empty buffer, which gets a 0-bit gap0)
-		want = &root.Kids[0]
-		if len(got.Kids) == 0 || got.Names[0] != "v" {
+		k := len(root.Kids) - 1
+		want = &root.Kids[k]
+		if len(got.Kids) <= k || got.Names[k] != "v" {
 			return fmt.Sprintf("self check: no field v (%s)", descr)
 		}
-		got = got.Kids[0]
+		got = got.Kids[k]
 	}
 	if d := eqV(want, &got); d != "" {
 		g, _ := json.Marshal(got)
